@@ -6,6 +6,7 @@
 -/
 import Crs.Copyright
 import CrsProofs.Lines
+import CrsProofs.Sub2
 namespace Crs.Props
 open Crs Crs.Copyright
 
@@ -259,6 +260,28 @@ theorem C14_secrule_ver_last_wins (v1 v2 l : Bytes) (h1 : VersionOk v1) :
     rw [splitCh_joinCh '\'' _ (by simp) hno]
     simp only
     rw [sub4Fields_last_wins v1 v2 h1.1]
+
+/-- **`setvar:tx.crs_setup_version=NNN`, all occurrences on a line: the last invocation wins.** The first version must
+    contain a digit (every version `validateSemver` accepts does); without one the first run deletes the number and
+    the marker is gone (`C14_setup_version_needs_digit`). -/
+theorem C14_setup_version_last_wins (v1 v2 l : Bytes) (h1 : ∃ c ∈ v1, isDigit c = true) :
+    sub2 (digitsOf v2) (sub2 (digitsOf v1) l) = sub2 (digitsOf v2) l := by
+  apply sub2_last_wins
+  · intro c hc; exact (List.mem_filter.mp hc).2
+  · obtain ⟨c, hc, hd⟩ := h1
+    intro e
+    have : c ∈ digitsOf v1 := List.mem_filter.mpr ⟨hc, hd⟩
+    rw [e] at this; simp at this
+
+/-- the hypothesis is met, and the conclusion is about a line that is rewritten twice -/
+example : sub2 (digitsOf b!"4.10.0") (sub2 (digitsOf b!"4.9.0-rc1") b!"setvar:tx.crs_setup_version=330, setvar:tx=crs_setup_version=1\"")
+    = b!"setvar:tx.crs_setup_version=4100, setvar:tx=crs_setup_version=4100\"" := by decide +kernel
+
+/-- without a digit in the first version the law fails (the model and the code agree on this; the command line
+    rejects such versions before `updateRules` runs) -/
+theorem C14_setup_version_needs_digit :
+    sub2 (digitsOf b!"4.1") (sub2 (digitsOf b!"x") b!"setvar:tx.crs_setup_version=330") ≠
+      sub2 (digitsOf b!"4.1") b!"setvar:tx.crs_setup_version=330" := by decide +kernel
 
 /-! ### files -/
 
